@@ -28,6 +28,11 @@ def corpus():
         out.append({"fmt": "ssc", "data": "#VERSION:0.83;\n#TITLE:caf\u00e9;\n".encode("cp1252").hex(), "try": None, "explicit": None,
                     "output": True, "backup": bk, "ops": [["attr", "artist", "x"]], "fs": "mem", "seed": 3})
     out.append({"fmt": "sm", "data": F.undecodable(random.Random(5)).hex(), "try": None, "explicit": None, "output": False, "backup": None, "ops": [], "fs": "native", "seed": 4})
+    # a file of zero bytes, and files holding only blanks, a byte order mark or a comment: they decode, so they are simfiles without properties
+    for fmt in ("sm", "ssc"):
+        for data in (b"", b"\n", b"\xef\xbb\xbf", b"// nothing here\n"):
+            for bk, fsk in ((None, "native"), ("ok", "mem")):
+                out.append({"fmt": fmt, "data": data.hex(), "try": None, "explicit": None, "output": False, "backup": bk, "ops": [["attr", "title", "now it has one"]], "fs": fsk, "seed": 6})
     return out
 
 
@@ -133,7 +138,7 @@ STALE = b"#TITLE:left by an earlier run;\n"
 def build_request(c, root_input, out, bak, body, bad_chars, fault):
     data = bytes.fromhex(c["data"])
     encs = c["try"] or F.DEFAULT_ENCODINGS
-    row = [F.text_mode_decode(data, e) for e in encs]
+    row = [F.text_mode_decode(data, e, c["fs"]) for e in encs]
     files = [[root_input, [0, 0]]]
     table = [[0, [[] if t is None else [t] for t in row]]]
     if c.get("stale_bak") and bak is not None and bak != root_input and bak != out:
@@ -283,7 +288,7 @@ def oracle(c, o):
     if o["open"][0] != "ok":
         return None if o["exc"] is not None and files == before else "open failed (%s) but mutate did not fail cleanly" % o["open"][1]
     # "loads exactly that decoded text": the documented loading rules (C03's, stated on msdparser's tokens) applied to the text-mode contents
-    doc = doc_loaded(c, F.text_mode_decode(data, encs[first]))
+    doc = doc_loaded(c, F.text_mode_decode(data, encs[first], c["fs"]))
     if doc is not None and o["open"][1][1] != doc:
         return "open() loaded %s..., the loading rules on the decoded text give %s..." % (str(o["open"][1][1])[:300], str(doc)[:300])
     if o["exc"] is not None:
@@ -297,7 +302,7 @@ def oracle(c, o):
         return "output file does not parse to the simfile at block exit: %s vs %s" % (str(o.get("out_parses_to"))[:200], str(o["exit"])[:200])
     if bak and o.get("bak_parses_to") != ["ok", o["entry"]]:
         return "backup file does not parse to the simfile at block entry"
-    written = F.text_mode_decode(bytes.fromhex(files[out or inp]), encs[first])
+    written = F.text_mode_decode(bytes.fromhex(files[out or inp]), encs[first], c["fs"])
     docw = doc_loaded(c, written) if written is not None else None
     if docw is not None and o.get("out_parses_to") != ["ok", docw]:
         return "the written file loads as %s..., the loading rules on its text give %s..." % (str(o.get("out_parses_to"))[:300], str(docw)[:300])
